@@ -144,7 +144,10 @@ MutationMustReject(sc, v, m) == TRUE
 \* the patterns the schema of class pa has to conjoin on the value / on the items
 EnforcedTrees(sc, tgt) == {sc.pats[q].tree : q \in {r \in 1..Len(sc.pats) : sc.pats[r].src \in Enforced /\ sc.pats[r].tgt = tgt}}
 AllTrees(sc) == {sc.pats[q].tree : q \in 1..Len(sc.pats)}
-Multi(sc) == \E tgt \in {"val", "item"} : Cardinality({PatternText(t) : t \in EnforcedTrees(sc, tgt)}) >= 2
+\* two or more pattern OCCURRENCES are conjoined on one target (equal texts included: the generator hands each of them
+\* to greenery; only patterns merged from different classes are de-duplicated)
+Multi(sc) == \E tgt \in {"val", "item"} :
+    Cardinality({q \in 1..Len(sc.pats) : sc.pats[q].src \in Enforced /\ sc.pats[q].tgt = tgt}) >= 2
 ScenarioFeatures(sc) ==
     (UNION {TreeFeatures(t) : t \in AllTrees(sc)})
     \cup (IF Multi(sc) THEN {"multi"} ELSE {})
